@@ -127,10 +127,10 @@ InitCalls ==
 
 Placed == {v \in V : st.vProd[v] # 0 /\ st.nGraph[st.vProd[v]] # 0}    \* outputs of nodes that sit in a graph
 NodeCalls ==
-     {[C("ReplaceInput") EXCEPT !.n = n, !.i = i, !.v = v] : n \in N, i \in {0, 1, 2}, v \in PV \cup {0}}
+     {[C("ReplaceInput") EXCEPT !.n = n, !.i = i, !.v = v] : n \in N, i \in {0, 1, 2}, v \in PV \cup {0, NotAValue}}
   \cup {[C("ResizeInputs") EXCEPT !.n = n, !.i = k] : n \in N, k \in {-1, 0, 1, 3}}
   \cup {[C("ResizeOutputs") EXCEPT !.n = n, !.i = k] : n \in N, k \in {-1, 0, 1, 2}}
-  \cup {[C("ReplaceAllUses") EXCEPT !.v = v, !.w = w, !.flag = f] : v \in PV, w \in PV, f \in BOOLEAN}
+  \cup {[C("ReplaceAllUses") EXCEPT !.v = v, !.w = w, !.flag = f] : v \in PV, w \in PV \cup {NotAValue}, f \in BOOLEAN}
   \* the sequence form: two pairs with one replacement (failure at the second pair after the first was applied)
   \* (the replacement: a pair value or any output of a node that sits in a graph - what a rewrite puts there)
   \cup {c \in {[C("ReplaceAllUsesSeq") EXCEPT !.vs = <<v1, v2>>, !.ws = <<w, w>>, !.flag = f] :
@@ -169,7 +169,8 @@ NewGraphCalls ==
 NewNodeCalls ==
   IF Len(st.nIn) >= MaxNodes THEN {}
   ELSE {[C("NewNode") EXCEPT !.vs = ins, !.ws = <<>>, !.i = k, !.g = g] :
-            ins \in {<<>>} \cup {<<x, x>> : x \in PV} \cup {<<x, 0>> : x \in PV}, k \in {1, 2}, g \in {0, 1}}
+            ins \in {<<>>} \cup {<<x, x>> : x \in PV} \cup {<<x, 0>> : x \in PV} \cup {<<x, NotAValue>> : x \in PV},
+            k \in {1, 2}, g \in {0, 1}}
        \cup {[C("NewNode") EXCEPT !.vs = <<>>, !.ws = outs, !.i = 0, !.g = g] :
             outs \in [1..1 -> PV] \cup {q \in VPairs : q[1] <= q[2]}, g \in {0, 1}}
 
